@@ -869,14 +869,21 @@ def _r5(ctx, m):
         if it[0] == "call" and it[1] == ("global", "zip") and it[2] and not it[3]:
             ds = [domains(x) for x in it[2]]
             return ds[0] if all(d is not None and d == ds[0] for d in ds) else None
-        if it[0] == "call" and it[1] in (("global", "product"), ("attr", ("global", "itertools"), "product")) and it[2] and not it[3]:
+        if it[0] == "call" and it[1] in (("global", "product"), ("attr", ("global", "itertools"), "product")) and it[2] and \
+                (not it[3] or (len(it[3]) == 1 and it[3][0][0] == "repeat" and it[3][0][1][0] == "const" and type(it[3][0][1][1]) is int and 1 <= it[3][0][1][1] <= 4)):
             out = []
             for x in it[2]:
                 d = domains(x)
                 if d is None:
                     return None
                 out += d
-            return out
+            return out * (it[3][0][1][1] if it[3] else 1)      # product(A, repeat=2) is product(A, A)
+        if it[0] == "call" and it[1] == ("global", "range") and len(it[2]) == 1 and not it[3]:
+            # the positions of a sequence stand for its elements: range(len(S))
+            n_ = simp(it[2][0])
+            if n_[0] == "call" and n_[1] == ("global", "len") and len(n_[2]) == 1 and not n_[3]:
+                return domains(n_[2][0])
+            return None
         b = seq_base(it)
         return [b] if b is not None else None
 
